@@ -142,6 +142,15 @@ fn run_str(v: &[u64]) {
             for (i, w) in idx.iter().zip(&s) {
                 check_str(r.index(*i), w);
             }
+            // a scratch region with an earlier life (same bytes in total, other item boundaries) refilled by clone_from
+            let mut d = <ConsecutiveIndexPairs<StringRegion>>::default();
+            for x in s.iter().rev() {
+                let _ = d.push(*x);
+            }
+            d.clone_from(&r);
+            for (i, w) in idx.iter().zip(&s) {
+                check_str(d.index(*i), w);
+            }
         }
         1 => {
             let mut r = <CollapseSequence<ConsecutiveIndexPairs<StringRegion>>>::default();
@@ -345,10 +354,10 @@ fn run_cols(v: &[u64]) {
 // ------------------------------------------------------------------------------------------------ collapse (C11)
 // args: s0 s1 s2 (strings from a 3-element domain so that repeats are frequent), boundary (0 none, 1 clear, 2 merge, 3 clone), depth (0 top, 1 over CIP, 2 in tuple, 3 in slice)
 fn pre_collapse(v: &[u64]) -> bool {
-    v[0] < 3 && v[1] < 3 && v[2] < 3 && v[3] < 6 && v[4] < 5
+    v[0] < 3 && v[1] < 3 && v[2] < 3 && v[3] < 6 && v[4] < 7
 }
 fn doms_collapse() -> Vec<Vec<u64>> {
-    vec![range(3), range(3), range(3), range(6), range(5)]
+    vec![range(3), range(3), range(3), range(6), vec![0, 1, 2, 3, 4, 5, 6]]
 }
 fn used<R: Region>(r: &R) -> usize {
     collect_heap(|cb| r.heap_size(cb)).iter().map(|p| p.0).sum()
@@ -499,6 +508,29 @@ fn run_collapse(v: &[u64]) {
                 idx.push(i);
                 for (j, w) in idx.iter().zip(items.iter()) {
                     vassert!(r.index(*j).into_owned() == **w, "VF:collapse.huffman.reads");
+                }
+            }
+        }
+        5 => {
+            // the benchmark composition: the collapsing region's repeated indices go through IndexOptimized::extend
+            crate::section("VF:collapse.slice_opt");
+            let pool = ["ab", "€", ""];
+            let mut r = <SliceRegion<CollapseSequence<ConsecutiveIndexPairs<StringRegion>>, flatcontainer::impls::index::IndexOptimized>>::default();
+            let x = [pool[v[0] as usize], pool[v[1] as usize], pool[v[2] as usize]];
+            let y = [pool[v[1] as usize], pool[v[1] as usize], pool[v[2] as usize], pool[v[0] as usize]];
+            let mut items: Vec<((usize, usize), Vec<&str>)> = Vec::new();
+            for round in 0..2 {
+                for it in [&x[..], &y[..], &x[..1]] {
+                    let i = r.push(it.to_vec());
+                    items.push((i, it.to_vec()));
+                    for (j, w) in &items {
+                        let got = r.index(*j);
+                        vassert!(got.len() == w.len() && got.iter().zip(w.iter()).all(|(a, b)| a == *b), "VF:collapse.slice_opt.reads");
+                    }
+                }
+                if v[3] == 1 && round == 0 {
+                    r.clear();
+                    items.clear();
                 }
             }
         }
@@ -687,7 +719,7 @@ pub fn harnesses() -> Vec<H> {
             bound: "OptionRegion<StringRegion>, ResultRegion<StringRegion, MirrorRegion<u8>>, TupleABRegion<StringRegion, MirrorRegion<u64>>: two pushes, each variant, owned and reference forms, twin fed owned forms", kani: false },
         H { name: "columns_ragged", props: &["C12", "C01", "C02", "C13", "C20"], nargs: 6, pre: pre_cols, doms: doms_cols, run: run_cols, panic_ok: true,
             bound: "ColumnsRegion<MirrorRegion<u8>> with IndexOptimized and Vec<usize> offsets: three rows of width 0..3 in any order, eight input forms (slice, Vec, &Vec, PushIter over an exact and over an inexact-size_hint iterator, read item of another region, [T;N], &[T;N]), compared with a twin fed slices, rotated over the rows, all rows re-read after every push, out-of-bounds probe at any position", kani: false },
-        H { name: "collapse_boundaries", props: &["C11", "C08", "C09", "C10", "C18", "C20"], nargs: 5, pre: pre_collapse, doms: doms_collapse, run: run_collapse, panic_ok: false,
-            bound: "CollapseSequence at the top, over ConsecutiveIndexPairs, inside a tuple and inside a slice region: three strings over a 3-value domain; boundaries none / clear / merge_regions / clone / clone_from into a pre-filled destination / reserve_regions between pushes; and over an encoded HuffmanContainer fed decoded read items (prefix / extension / empty)", kani: false },
+        H { name: "collapse_boundaries", props: &["C11", "C08", "C09", "C10", "C18", "C20", "C01"], nargs: 5, pre: pre_collapse, doms: doms_collapse, run: run_collapse, panic_ok: false,
+            bound: "CollapseSequence at the top, over ConsecutiveIndexPairs, inside a tuple and inside a slice region: three strings over a 3-value domain; boundaries none / clear / merge_regions / clone / clone_from into a pre-filled destination / reserve_regions between pushes; and over an encoded HuffmanContainer fed decoded read items (prefix / extension / empty); inside SliceRegion<.., IndexOptimized> over consecutive pairs (the benchmark composition), two rounds with an optional clear", kani: false },
     ]
 }
